@@ -25,7 +25,7 @@ fn main() {
         usage();
     }
     match args[1].as_str() {
-        "selftest" => match pgvcore::selftest() {
+        "selftest" => match pgvcore::selftest(args.get(2).map_or(false, |a| a == "light")) {
             Ok(()) => println!("selftest ok"),
             Err(e) => {
                 eprintln!("SELFTEST-FAILED: {e}");
@@ -85,7 +85,7 @@ fn main() {
                 }
                 i += 2;
             }
-            if let Err(e) = pgvcore::selftest() {
+            if let Err(e) = pgvcore::selftest(ctx.slow()) {
                 eprintln!("SELFTEST-FAILED: {e}");
                 std::process::exit(2);
             }
@@ -101,6 +101,8 @@ fn main() {
                 "C06" => props::c06::run(&ctx, &mut rep),
                 "C07" => props::c07::run(&ctx, &mut rep),
                 "C08" => props::c08::run(&ctx, &mut rep),
+                "C09" => props::c09::run(&ctx, &mut rep),
+                "C17" => props::c17::run(&ctx, &mut rep),
                 other => {
                     eprintln!("unknown property {other}");
                     std::process::exit(2);
